@@ -87,7 +87,8 @@ func (f *formatValidator) Validate(val interface{}) *Result {
 		result = new(Result)
 	}
 
-	if err := FormatOf(f.Path, f.In, f.Format, val.(string), f.KnownFormats); err != nil {
+	// val has kind string, but is not necessarily of type string (e.g. json.Number)
+	if err := FormatOf(f.Path, f.In, f.Format, reflect.ValueOf(val).String(), f.KnownFormats); err != nil {
 		result.AddErrors(err)
 	}
 
